@@ -275,6 +275,13 @@ class Gen:
             return var(r.choice(vs))
         return self.construct(ty, 0)
 
+    def tick_(self):
+        """a statement that is only there to be seen in the host-call log; the LIR evaluator cannot call host
+        functions that return nothing, so the evaluator-friendly families log through emit_bool instead"""
+        if self.has("evalsafe"):
+            return host("emit", "bool", self.tag(), [lit("bool", self.r.random() < 0.5)])
+        return host("tick", "unit", self.tag(), [])
+
     def construct(self, ty, d):
         r = self.r
         if ty == "unit":
@@ -282,6 +289,10 @@ class Gen:
         if ty == "Tr":
             return host("mk", "Tr", self.tag(), [])
         if ty[0] == "opt":
+            if self.has("hostopt") and isinstance(ty[1], str) and ty[1] in INT_TYS + FLOAT_TYS + ["bool", "char", "str"] \
+                    and r.random() < 0.35:
+                # the Option is built by a registered host function and crosses the boundary as a return value
+                return host("optif", ty[1], self.tag(), [self.expr("bool", d - 1), self.expr(ty[1], d - 1)])
             if r.random() < 0.3:
                 return {"k": "ctor", "en": "Option", "v": "None", "args": []}
             return {"k": "ctor", "en": "Option" if r.random() < 0.5 else "", "v": "Some", "args": [self.expr(ty[1], d - 1)]}
@@ -600,7 +611,7 @@ class Gen:
         if f == "emit":
             return self.stmt_emit(d)
         if f == "tick":
-            return host("tick", "unit", self.tag(), [])
+            return self.tick_()
         if f == "if":
             c = self.expr("bool", d - 1)
             if r.random() < 0.5:
@@ -725,8 +736,8 @@ class Gen:
         if ty[0] == "opt":
             x = self.fresh("m")
             out.append({"k": "match", "e": e, "arms": [
-                {"v": "Some", "bs": [x], "g": [], "b": block(self.observe(var(x), ty[1], depth - 1) + [host("tick", "unit", self.tag(), [])])},
-                {"v": "None", "bs": [], "g": [], "b": block([host("tick", "unit", self.tag(), [])])}]})
+                {"v": "Some", "bs": [x], "g": [], "b": block(self.observe(var(x), ty[1], depth - 1) + [self.tick_()])},
+                {"v": "None", "bs": [], "g": [], "b": block([self.tick_()])}]})
             return out
         if self.kind_of(ty) == "record":
             for f, ft in self.fields_of(ty):
@@ -743,10 +754,10 @@ class Gen:
             body = []
             for b, bt in zip(bs, ts):
                 body += self.observe(var(b), bt, depth - 1)
-            body.append(host("tick", "unit", self.tag(), []))
+            body.append(self.tick_())
             arms.append({"v": v, "bs": bs, "g": [], "b": block(body)})
         if len(explicit) < len(vs_):
-            arms.append({"v": "_", "bs": [], "g": [], "b": block([host("tick", "unit", self.tag(), [])])})
+            arms.append({"v": "_", "bs": [], "g": [], "b": block([self.tick_()])})
         out.append({"k": "match", "e": e, "arms": arms})
         return out
 
@@ -835,7 +846,7 @@ class Gen:
         self.cur_rt = None
         step = self.expr(t, 1)
         body = if_(binop("eq", "u8", var(n), ilit("u8", 0)), block([], var(acc)),
-                   block([host("tick", "unit", self.tag(), [])],
+                   block([self.tick_()],
                          {"k": "call", "f": name, "args": [binop("sub", "u8", var(n), ilit("u8", 1)), step]}))
         self.fns[name] = {"ps": [n, acc], "pts": ["u8", t], "rt": t, "b": block([], body), "special": True}
         self.scopes = []
@@ -859,6 +870,9 @@ class Gen:
         if self.has("filtermap") and r.random() < 0.6:
             self.gen_filtermap("fm0")
         mrt = r.choice(self.scalar_tys() + ["unit"])
+        if self.has("evalsafe"):
+            # the evaluator hook passes no return slot: main returns a register-sized scalar
+            mrt = r.choice([t for t in self.scalar_tys() if t != "str"] or ["bool"])
         ps = []
         self.scopes = [[]]
         self.cur_rt = mrt
@@ -871,7 +885,7 @@ class Gen:
             call = {"k": "call", "f": "fm0", "args": [self.expr(t, 1, True) for t in fm["pts"]]}
             ss.append({"k": "match", "e": call, "arms": [
                 {"v": "Accept", "bs": [a], "g": [], "b": block([host("emit", ta, self.tag(), [var(a)])])},
-                {"v": "Reject", "bs": [b], "g": [], "b": block([host("emit", tr_, self.tag(), [var(b)]), host("tick", "unit", self.tag(), [])])}]})
+                {"v": "Reject", "bs": [b], "g": [], "b": block([host("emit", tr_, self.tag(), [var(b)]), self.tick_()])}]})
         if rec_t is not None:
             n = self.fresh()
             ss.append(let(n, rec_t, {"k": "call", "f": "rec0", "args": [ilit("u8", r.randint(0, 4)), self.leaf(rec_t)]}))
